@@ -322,6 +322,28 @@ def levels_case(rep, drv, rng):
 	with warnings.catch_warnings():
 		warnings.simplefilter('ignore')
 		net = serial_system(n, node_order_in_system=order, local_holding_cost=1, demand_type='P', mean=3, policy_type='BS', base_stock_level=1)
+		# the same line stored in another order (the order of network.nodes carries no meaning): edges listed from the downstream end, nodes added in
+		# a shuffled order before the edges, or the line grown upstream from the sink (its own stream: the main one is unchanged)
+		rng_b = random.Random(sum((i_ + 1) * l_ for i_, l_ in enumerate(order)) + 31 * n)
+		style = rng_b.choice(['serial_system', 'edges-downstream-first', 'hand-built-shuffled', 'grown-upstream']) if n >= 2 else 'serial_system'
+		case['built'] = style; rep.count('levels:' + style)
+		if style == 'edges-downstream-first':
+			from stockpyl.supply_chain_network import network_from_edges
+			net = network_from_edges([(order[i_], order[i_ + 1]) for i_ in range(n - 2, -1, -1)])
+		elif style in ('hand-built-shuffled', 'grown-upstream'):
+			from stockpyl.supply_chain_network import SupplyChainNetwork
+			from stockpyl.supply_chain_node import SupplyChainNode
+			net = SupplyChainNetwork()
+			if style == 'hand-built-shuffled':
+				ls_ = list(order); rng_b.shuffle(ls_)
+				for l_ in ls_:
+					net.add_node(SupplyChainNode(l_))
+				es_ = [(order[i_], order[i_ + 1]) for i_ in range(n - 1)]; rng_b.shuffle(es_)
+				net.add_edges_from_list(es_)
+			else:
+				net.add_node(SupplyChainNode(order[-1]))
+				for i_ in range(n - 2, -1, -1):
+					net.add_predecessor(net.nodes_by_index[order[i_ + 1]], SupplyChainNode(order[i_]))
 		S_local = {l: float(v) for l, v in zip(order, local)}
 		try:
 			S_ech = local_to_echelon_base_stock_levels(net, S_local)
